@@ -10,7 +10,10 @@ use syn::{self, parse_quote};
 
 use crate::{
     error::Result,
-    grammar::{types::to_snake_case, NonTerminal, Terminal},
+    grammar::{
+        types::{to_snake_case, ChoiceKind},
+        NonTerminal, Terminal,
+    },
     settings::{LexerType, Settings},
     Error,
 };
@@ -82,6 +85,25 @@ pub(super) fn check_action_identifiers(generator: &ParserGenerator) -> Result<()
             return Err(Error::Error(format!(
                 "Can't use '{name}' with the default builder as '{ident}' is not a valid Rust identifier."
             )));
+        }
+    }
+    // Fields of the struct deduced for a production are named by assignments
+    // or after the referenced symbols. The same name twice does not compile.
+    if let Some(types) = &generator.types {
+        for nonterminal in generator.grammar.nonterminals().iter().filter(|nt| nt.reachable.get()) {
+            let ty = types.get_type(generator.grammar.nonterm_to_symbol_index(nonterminal.idx));
+            for choice in &ty.choices {
+                if let ChoiceKind::Struct { fields, .. } = &choice.kind {
+                    let mut names = BTreeSet::new();
+                    if let Some(field) = fields.iter().find(|f| !names.insert(&f.name)) {
+                        return Err(Error::Error(format!(
+                            "Field name '{}' is used more than once in a production of the rule '{}'. \
+                             Use assignments to give unique names.",
+                            field.name, nonterminal.name
+                        )));
+                    }
+                }
+            }
         }
     }
     Ok(())
